@@ -288,7 +288,11 @@ structure State where
   nodes : List (VK × Nat)
   /-- GHOST (not in the Go code, never read by the model): the todo elements popped so
   far, with the node id `concreteVersions[cur.versionKey]` and the value of `first`. -/
-  done : List (Nat × Todo)
+  done : List (Nat × Bool × Todo)
+  /-- GHOST (never read by the model): one entry per node added after the root: its id,
+  the edge added together with it (the one carrying `dep.Selector`) and the todo
+  element pushed for it. -/
+  created : List (Nat × Edge × Todo)
 deriving Repr
 
 inductive Err | notfound | other | incompatible
@@ -375,6 +379,28 @@ def managedVersion (mgt : List (PackageKey × Bytes)) (first : Bool) (pk : Packa
   | some v => if !first then v else req
   | none => req
 
+/-- `c.packageKey` of a declaration. -/
+def depKey (d : Dep) : PackageKey := packageKeyForDependency d.name d.typ
+
+/-- `d.Version` after the management override (resolve.go 246–248). -/
+def depVer (mgt : List (PackageKey × Bytes)) (first : Bool) (d : Dep) : Bytes :=
+  managedVersion mgt first (depKey d) d.req
+
+/-- resolve.go 249–252: append the requirement unless already present. -/
+def reqsAfter (m : ReqMap) (pk : PackageKey) (ver : Bytes) : ReqMap :=
+  if (m.get pk).contains ver then m else m.set pk (m.get pk ++ [ver])
+
+/-- `concreteVersions[cur.versionKey]` (0 when absent, as a Go map read). -/
+def curIdOf (s : State) (cur : Todo) : Nat := (s.concreteVersions.lookup cur.key).getD 0
+
+/-- The todo element pushed for a new node (resolve.go 364–380). -/
+def childTodo (cur : Todo) (d : Dep) (c : VersionKey) : Todo :=
+  { key := c
+    includesDependencies := includesDependencies d.typ
+    exclusions := match d.exclusions with
+      | some de => some (de ++ cur.exclusions.getD [])
+      | none => cur.exclusions }
+
 /-- Body of `for _, d := range imps` (resolve.go 229–389). An error carries the
 `requirements` map as mutated so far (the retry loop keeps it). -/
 def processDep (u : Universe) (mgt : List (PackageKey × Bytes)) (first : Bool) (cur : Todo)
@@ -383,11 +409,10 @@ def processDep (u : Universe) (mgt : List (PackageKey × Bytes)) (first : Bool) 
   | none => .error (.other, s.requirements)
   | some true => .ok s
   | some false =>
-    let pk := packageKeyForDependency d.name d.typ
-    let ver := managedVersion mgt first pk d.req
-    let reqs := s.requirements.get pk
-    let requirements := if reqs.contains ver then s.requirements else s.requirements.set pk (reqs ++ [ver])
-    let curId := (s.concreteVersions.lookup cur.key).getD 0
+    let pk := depKey d
+    let ver := depVer mgt first d
+    let requirements := reqsAfter s.requirements pk ver
+    let curId := curIdOf s cur
     match findMatch u d.name (requirements.get pk) with
     | .noMatch => .ok { s with requirements := requirements, g := s.g.addError curId { name := d.name, version := ver } }
     | .errNotFound => .error (.notfound, requirements)
@@ -409,22 +434,18 @@ def processDep (u : Universe) (mgt : List (PackageKey × Bytes)) (first : Bool) 
             | none => .error (.other, requirements)
             | some g => .ok { s with requirements := requirements, g := g }
           | none =>
-            let (g1, matchID) := s.g.addNode c.vk
+            let matchID := s.g.nodes.length
             let dt := d.typ.setAttr C07Consts.keySelector.toNat []
-            match g1.addEdge curId matchID ver dt with
+            match (s.g.addNode c.vk).1.addEdge curId matchID ver dt with
             | none => .error (.other, requirements)
             | some g2 =>
-              let n : Todo :=
-                { key := c
-                  includesDependencies := includesDependencies d.typ
-                  exclusions := match d.exclusions with
-                    | some de => some (de ++ cur.exclusions.getD [])
-                    | none => cur.exclusions }
+              let n := childTodo cur d c
               .ok { requirements := requirements, g := g2, todo := s.todo ++ [n]
                     resolvedPackages := pk :: s.resolvedPackages
                     concreteVersions := (c, matchID) :: s.concreteVersions
                     nodes := (c.vk, matchID) :: s.nodes
-                    done := s.done }
+                    done := s.done
+                    created := s.created ++ [(matchID, { src := curId, dst := matchID, req := ver, typ := dt }, n)] }
 
 def processDeps (u : Universe) (mgt : List (PackageKey × Bytes)) (first : Bool) (cur : Todo) :
     List Dep → State → Except (Err × ReqMap) State
@@ -445,16 +466,16 @@ def loop (u : Universe) (mgt : List (PackageKey × Bytes)) : Nat → Bool → St
     | [] => .ok (some s)
     | cur :: rest =>
       let s := { s with todo := rest }
-      let curId := (s.concreteVersions.lookup cur.key).getD 0
+      let curId := curIdOf s cur
       if cur.includesDependencies then
-        loop u mgt fuel false { s with done := s.done ++ [(curId, cur)] }
+        loop u mgt fuel false { s with done := s.done ++ [(curId, first, cur)] }
       else
         match imports u cur.key.vk { test := first, opt := first, provided := first } with
         | none => .error (.notfound, s.requirements)
         | some imps =>
           match processDeps u mgt first cur imps s with
           | .error e => .error e
-          | .ok s' => loop u mgt fuel false { s' with done := s'.done ++ [(curId, cur)] }
+          | .ok s' => loop u mgt fuel false { s' with done := s'.done ++ [(curId, first, cur)] }
 
 def rootKey (root : VK) : VersionKey :=
   { pk := packageKeyForDependency root.name { mask := 0, attrs := [] }, vk := root }
@@ -466,7 +487,8 @@ def initState (root : VK) (requirements : ReqMap) : State :=
     resolvedPackages := [(rootKey root).pk]
     concreteVersions := [(rootKey root, 0)]
     nodes := [(root, 0)]
-    done := [] }
+    done := []
+    created := [] }
 
 /-- One pass: `(*resolver).resolve` with `multi = false`. -/
 def resolveOnce (u : Universe) (root : VK) (requirements : ReqMap) (fuel : Nat) :
